@@ -829,9 +829,14 @@ def _check_misc_locate(sh, locate, np, r, i):
         k = int(r.integers(0, n + 1))
         pv = r.integers(0, n, k) if (n and r.random() < 0.3) else r.permutation(n)[:k]
         pv = np.asarray(pv, dtype=int)
+        if n and k and r.random() < 0.3:
+            # from-the-end (negative) entries address positions like any NumPy index
+            neg = r.random(k) < 0.5
+            pv = np.where(neg, pv - n, pv)
+            sh.count("cell:flippv-negative-entries")
         case = {"fn": "flippv", "pv": pv.tolist(), "n": n}
         sh.case(["flippv", case], n > 0)
-        inside = set(pv.tolist())
+        inside = set(int(x) % n for x in pv.tolist()) if n else set()
         try:
             got = locate.flippv(pv if r.random() < 0.7 else pv.tolist(), n)
             got = [int(x) for x in np.asarray(got).tolist()]
